@@ -63,7 +63,11 @@ import (
 )
 
 func init() {
-	engines["rpc"] = seqRunner{gen: rpcGen, exec: rpcExec}.engine()
+	run := seqRunner{gen: rpcGen, exec: rpcExec}.engine()
+	engines["rpc"] = func(c *runCtx) error {
+		defer relayCloseWorld() // the storage engine behind the `relay` ops lives for one run
+		return run(c)
+	}
 }
 
 // ---------------------------------------------------------------- recording fakes
@@ -90,6 +94,8 @@ type rpcCfg struct {
 	serverKey  []byte
 	clientKey  []byte
 	clientInCn bool
+	// selfNodeSet: the container consists of the local node only (search with TTL > 1 then stays local)
+	selfNodeSet bool
 }
 
 type rpcHandlers struct{ r *rpcRec }
@@ -144,6 +150,11 @@ func (f rpcFSChain) ForEachContainerNodePublicKeyInLastTwoEpochs(_ cid.ID, fn fu
 	return nil
 }
 func (f rpcFSChain) SelectContainerNodes(cid.ID) ([][]netmap.NodeInfo, []uint, []verifbridge.ECRule, error) {
+	if f.c.selfNodeSet {
+		var self netmap.NodeInfo
+		self.SetPublicKey(f.c.serverKey)
+		return [][]netmap.NodeInfo{{self}}, []uint{1}, nil, nil
+	}
 	return nil, nil, nil, nil
 }
 func (f rpcFSChain) IsOwnPublicKey(k []byte) bool { return string(k) == string(f.c.serverKey) }
@@ -244,13 +255,19 @@ func (c rpcClients) Get(context.Context, netmap.NodeInfo) (clientcore.MultiAddre
 type rpcStream struct {
 	r     *rpcRec
 	codes []uint32
+	ctx   context.Context // nil = a plain connection
 }
 
 func (s *rpcStream) SetHeader(metadata.MD) error  { return nil }
 func (s *rpcStream) SendHeader(metadata.MD) error { return nil }
 func (s *rpcStream) SetTrailer(metadata.MD)       {}
-func (s *rpcStream) Context() context.Context     { return context.Background() }
-func (s *rpcStream) RecvMsg(any) error            { return io.EOF }
+func (s *rpcStream) Context() context.Context {
+	if s.ctx != nil {
+		return s.ctx
+	}
+	return context.Background()
+}
+func (s *rpcStream) RecvMsg(any) error { return io.EOF }
 func (s *rpcStream) SendMsg(m any) error {
 	s.r.eff(fmt.Sprintf("data:SendMsg(%T)", m))
 	return nil
@@ -676,6 +693,11 @@ func rpcGen(c *runCtx, run func([]string)) {
 			}
 		}
 	}
+	if c.prop == "C29" || c.prop == "" {
+		// who is the request authenticated as (TLS peer / verification header), and the header-time eACL re-check of GET
+		ops = append(ops, rpcAuthGen()...)
+		ops = append(ops, rpcRelayGen(c)...)
+	}
 	c.rng.Shuffle(len(ops), func(i, j int) { ops[i], ops[j] = ops[j], ops[i] })
 	run(ops)
 }
@@ -687,6 +709,14 @@ func rpcExec(c *runCtx, ops []string) {
 		if o.name != "obj" {
 			if o.name == "ctl" || o.name == "irctl" {
 				ctlExecLine(c, line, o)
+				continue
+			}
+			if o.name == "auth" {
+				rpcAuthExec(c, line, o)
+				continue
+			}
+			if o.name == "relay" {
+				rpcRelayExec(c, line, o)
 				continue
 			}
 			c.emit(line, "=> bad-op")
